@@ -72,9 +72,11 @@ def post_dpss(N, NW, k, result):
         return
     G = tapers.T @ tapers
     c.compare('dpss:orthonormal-columns', G, np.eye(kk), 1e-9, feats, scale=1.0, detail=det)
-    c.require('dpss:concentrations-in-(0,1]', bool(np.all(lam > 0) and np.all(lam <= 1 + 1e-12)),
+    # the ratios are computed in floating point through an FFT autocovariance: accurate to ~1e-11 at N = 4096,
+    # where the leading ones differ from 1 (and from each other) by less than that
+    c.require('dpss:concentrations-in-(0,1]', bool(np.all(lam > 0) and np.all(lam <= 1 + 1e-9)),
               dict(det, lam=lam[:8]), feats)
-    c.require('dpss:concentrations-non-increasing', bool(np.all(np.diff(lam) <= 1e-12)), dict(det, lam=lam[:8]), feats)
+    c.require('dpss:concentrations-non-increasing', bool(np.all(np.diff(lam) <= 1e-9)), dict(det, lam=lam[:8]), feats)
     W32 = float(np.float32(NWf)) / N
     if N <= (1024 if c.tier == 'quick' else 4096):
         A = sinc_kernel(N, NWf / N)
